@@ -1,6 +1,6 @@
-\* one file x 0..2 items, two start addresses, creator present or empty (empty: the reader's length check refuses)
+\* one file x 0..2 items, two start addresses, creator present or empty; filter lists incl. -f a,b,c +f first/middle and BINDCMD preset (empty: the reader's length check refuses)
 CONSTANTS MaxFiles = 1 MaxItems = 2 Starts = {0, 300} ByteLens = {0, 2} EntryAddrs = {4660}
-  CpuSegGran <- CSG_Small Forms <- Forms_Both Filters <- F_Small Creators <- Cr_Two Quiets <- Q_Both Dev <- D_None
+  CpuSegGran <- CSG_Small Forms <- Forms_Both Filters <- F_SmallOps Creators <- Cr_Two Quiets <- Q_Both Dev <- D_None
 SPECIFICATION Spec
 INVARIANTS Conforms StepRunAgrees PrefixOK RoundTrip HeaderRule
 PROPERTY Monotone
